@@ -243,17 +243,8 @@ func c08Call(id string, known map[string]int) (digest string, err error) {
 	o := lib.Guard(func() {
 		switch parts[0] {
 		case "D":
-			var opts []fit.DecodeOption
 			m := arg(2)
-			if m&1 != 0 {
-				opts = append(opts, fit.WithLogger(&countingLogger{}))
-			}
-			if m&2 != 0 {
-				opts = append(opts, fit.WithUnknownFields())
-			}
-			if m&4 != 0 {
-				opts = append(opts, fit.WithUnknownMessages())
-			}
+			opts := optionList(m&7, &countingLogger{}, uint64(arg(1)*7+m))
 			f, e := fit.Decode(bytes.NewReader(p.inputs[arg(1)]), opts...)
 			out = canonContent(f, known) + "|" + lib.ErrText(e)
 			if m&8 != 0 {
